@@ -447,10 +447,13 @@ int run_check(const std::string &prop, int tier, uint64_t master, int jobs) {
   if (!d) { fprintf(stderr, "no driver for %s\n", prop.c_str()); return 2; }
   double t0 = now_s();
   uint64_t N = d->ncases(tier);
+  if (const char *e = getenv("VERIF_CASE_DIV")) { uint64_t dv = strtoull(e, 0, 10); if (dv > 1) N = (N + dv - 1) / dv; }
   if (const char *e = getenv("VERIF_CASES")) N = strtoull(e, 0, 10);
   if (jobs < 1) jobs = 1;
   if (jobs > 64) jobs = 64;
   if ((uint64_t)jobs > N) jobs = (int)N;
+  // every variant explores its own cases (the same VERIF_SEED, different derived case seeds)
+  uint64_t vmaster = std::string(sim::variant()) == "plain" ? master : sim::mix64(master, sim::hash_bytes(sim::variant(), strlen(sim::variant())));
   double wall_cap = tier == 0 ? 240 : 2400;
   if (const char *e = getenv("VERIF_WALL_CAP")) wall_cap = atof(e);
   mkdir("replays", 0755); mkdir("evidence", 0755); mkdir("build", 0755); mkdir("build/tmp", 0755);
@@ -473,7 +476,7 @@ int run_check(const std::string &prop, int tier, uint64_t master, int jobs) {
         if (now_s() - t0 > wall_cap) { capped = true; break; }
         if (sh->nviol >= 4) { st.inc("stopped_early_after_violations"); break; }   // enough counterexamples: the tree is broken
         sh->cur_case[w] = i;
-        uint64_t cs = case_seed(master, i);
+        uint64_t cs = case_seed(vmaster, i);
         Case c = d->gen(cs, tier);
         c.seed = cs;
         Ctx ctx; ctx.st = &st; ctx.tier = tier;
@@ -534,8 +537,8 @@ int run_check(const std::string &prop, int tier, uint64_t master, int jobs) {
       v.sig = v.cls;
       v.msg = "worker process ended with status " + std::to_string(code) + " while executing this case (" + (code == 77 ? "sanitizer report, see stderr" : "crash") + ")";
       if (idx != ~0ull) {
-        Case c = d->gen(case_seed(master, idx), tier);
-        c.seed = case_seed(master, idx);
+        Case c = d->gen(case_seed(vmaster, idx), tier);
+        c.seed = case_seed(vmaster, idx);
         Verdict vv = Verdict::fail(v.cls, v.msg, v.sig);
         v.path = replay_path(prop, master, idx);
         write_file(v.path, case_to_text(c, vv, 0));
